@@ -66,3 +66,4 @@ func verifResultOwned(v any) bool
 func verifTraceLeaks(prefix string) int
 func verifTraceClass(class string)
 func verifBigHexDigits() []byte
+func verifIteI64(c bool, a, b int64) int64
